@@ -111,7 +111,7 @@ class Ctx:
     # -- paths --------------------------------------------------------------
 
     def paths(self, module: Module, func: ast.FunctionDef, max_iter: int = 2,
-              assert_paths: bool = False, prune: bool = True) -> List[List[Step]]:
+              assert_paths: bool = False, prune: bool = True, max_paths: int = 40000) -> List[List[Step]]:
         key = (id(func), max_iter, assert_paths, prune)
         if key not in self._paths:
             interp = Interp(
@@ -119,9 +119,24 @@ class Ctx:
                 assert_paths=assert_paths,
                 prune=prune,
                 non_none=self.non_none_for(module, ()),
+                max_paths=max_paths,
             )
-            self._paths[key] = interp.run(func)
+            try:
+                self._paths[key] = interp.run(func)
+            except AnalysisError as exc:
+                self._paths[key] = exc
+        if isinstance(self._paths[key], Exception):
+            raise self._paths[key]
         return self._paths[key]
+
+    def paths_auto(self, module: Module, func: ast.FunctionDef, budget: int = 1500) -> List[List[Step]]:
+        """Loops unrolled twice when that stays within ``budget`` paths, else once."""
+        from .paths import TooManyPaths
+
+        try:
+            return self.paths(module, func, max_iter=2, max_paths=budget)
+        except TooManyPaths:
+            return self.paths(module, func, max_iter=1)
 
     # -- call graph ---------------------------------------------------------
 
